@@ -369,6 +369,32 @@ func runC01(c *Ctx) {
 		}
 		env.exec(c, "put", nt, v.key, v.val)
 	}
+	// (a2) the ephemeral-header adapter of the history store with a populated database (the local store API can write
+	// it: offer-type keys are stored verbatim): FINDCONTENT keys of type 0x04 then walk hash -> number key -> headers
+	// with a peer-chosen ancestor count over whatever the database holds (short number keys, gaps, garbage values)
+	{
+		nt := env.nets[0]
+		hashKey := append([]byte{0x05}, r.Bytes(31)...) // 32-byte key: what Get looks up as "block hash"
+		numKey := []byte{0x05, 0, 0, 0, 0, 0, 0, 9}      // 8-byte key: decodes as a block number
+		env.exec(c, "put", nt, hashKey, numKey)
+		env.exec(c, "put", nt, numKey, r.Bytes(120))
+		for _, k := range [][]byte{{0x05, 0, 0, 0, 0, 0, 0, 8}, {0x05, 0, 0, 0, 0, 0, 0, 7}, {0x05, 0, 0, 0, 0, 0, 0, 5}, {0x05, 0, 0, 0, 0, 0, 0}, {0x05}} {
+			env.exec(c, "put", nt, k, r.Bytes(60))
+		}
+		badHash := append([]byte{0x05}, r.Bytes(31)...)
+		env.exec(c, "put", nt, badHash, []byte{1, 2, 3}) // number key of the wrong length
+		dangling := append([]byte{0x05}, r.Bytes(31)...)
+		env.exec(c, "put", nt, dangling, []byte{0x05, 0, 0, 0, 0, 0, 1, 0}) // number key without a header
+		for _, h := range [][]byte{hashKey, badHash, dangling, r.Bytes(32)} {
+			for _, cnt := range []byte{0, 1, 2, 3, 4, 5, 255} {
+				key := append(append([]byte{0x04}, h...), cnt)
+				env.exec(c, "get", nt, key)
+				env.exec(c, "talk", nt, c01findContent(key))
+			}
+			env.exec(c, "get", nt, append([]byte{0x04}, h...))
+			env.exec(c, "get", nt, append(append([]byte{0x04}, h...), 1, 0))
+		}
+	}
 	// (a'') genuine test vectors of the repository, unchanged and under structured mutation, through the
 	// validators (with the vector's own header served by the oracle when the file carries one) and the storage adapters
 	vectors := c01loadVectors()
